@@ -13,7 +13,7 @@ from vf.sim import mdns
 from vf.sim.scenario import Sim
 
 LEVEL = "exploration"
-RULE = ("address lists of 1-3 hosts from {v4 literal, v6 literal, v6%numeric-scope literal, bare name, x.local, x.local., FQDN, FQDN., bare name with a 64-byte label, .local name with a control character (both not expressible in mDNS)} x per-host mDNS outcome "
+RULE = ("address lists of 1-3 hosts from {v4 literal, v6 literal, v6%numeric-scope literal, bare name, x.local, x.local., x.sub.local, x.sub.sub.local., FQDN, FQDN., FQDN with .local. inside, bare name with a 64-byte label, .local name with a control character (both not expressible in mDNS)} x per-host mDNS outcome "
         "{v4, v6, both, several of each, addresses but an incomplete answer (request reports failure), no answer within the timeout, raises} x per-host OS-resolver outcome {v4, v6, both (v4 first), empty, gaierror, "
         "unknown address family only} x zeroconf provision {no manager, empty manager, supplied AsyncZeroconf, supplied Zeroconf, instance the library "
         "created earlier and still uses, empty manager on a host where no mDNS socket can be opened (followed by the application supplying its own instance)} x entry point {host_resolver.async_resolve_host, APIClient.start_connection (addresses captured at the "
@@ -35,18 +35,19 @@ MIN_EVALS = {"quick": 3000, "thorough": 20000}
 PORT = 6053
 
 LITERAL = ("v4", "v6", "v6scope")
-NAMES = ("bare", "local", "local.")
-FQDN = ("fqdn", "fqdn.")
+NAMES = ("bare", "local", "local.", "sub.local", "sub.local.")   # (a name below a sub-domain of .local is a .local name too)
+FQDN = ("fqdn", "fqdn.", "fqdn-local-inside")
 UNEXPRESSIBLE = ("bare-64-byte-label", "local-control-char")   # bare / .local names that mDNS cannot express: the lookup fails before any request -> OS resolver
 MDNS_FOUND = ("v4", "v6", "both", "multi", "incomplete-both")   # incomplete: addresses received but no SRV/TXT within the timeout (request reports False)
 MDNS_NOTHING = ("none", "raise")
-OS_KINDS = ("v4", "v6", "both", "empty", "gaierror", "unknown-family")
+OS_KINDS = ("v4", "v6", "both", "empty", "gaierror", "unknown-family", "v6-scoped", "v6-flow")
 PROVISIONS = ("no-manager", "empty-manager", "supplied-async", "supplied-sync", "library-precreated", "empty-manager+create-fault")
 
 
 def host_str(form: str, i: int) -> str:
     return {"v4": f"10.{i}.9.9", "v6": f"fd00:{i}::99", "v6scope": f"fe80::{i}:99%{i + 2}", "bare": f"dev{i}", "local": f"dev{i}.local",
-            "local.": f"dev{i}.local.", "bare-64-byte-label": f"dev{i}" + "x" * 60, "local-control-char": f"dev{i}\x07.local", "fqdn": f"dev{i}.example.com", "fqdn.": f"dev{i}.example.com."}[form]
+            "local.": f"dev{i}.local.", "sub.local": f"dev{i}.iot.local", "sub.local.": f"dev{i}.corp.lan.local.",
+            "fqdn-local-inside": f"dev{i}.local.example.com", "bare-64-byte-label": f"dev{i}" + "x" * 60, "local-control-char": f"dev{i}\x07.local", "fqdn": f"dev{i}.example.com", "fqdn.": f"dev{i}.example.com."}[form]
 
 
 def mdns_answer(kind: str, i: int) -> Any:
@@ -82,6 +83,11 @@ def os_answer(kind: str, i: int) -> Any:
         return socket.gaierror(socket.EAI_NONAME, "Name or service not known")
     if kind == "unknown-family":
         return [(socket.AF_UNIX, socket.SOCK_STREAM, 0, "", "/tmp/x")]
+    if kind == "v6-scoped":
+        # link-local answers: the OS reports the zone only as the numeric scope_id of the sockaddr, the address text has no %zone
+        return [f"fe80::{i}:7%{i + 5}", f"10.{i}.1.1"]
+    if kind == "v6-flow":
+        return [(socket.AF_INET6, socket.SOCK_STREAM, socket.IPPROTO_TCP, "", (f"fd00:{i}:2::1", PORT, 9, 0))]
     if kind == "hang":
         return "hang"
     raise ValueError(kind)
@@ -120,7 +126,8 @@ def reference(hosts: list[tuple[str, str, str]], mdns_available: bool = True) ->
                 if os_ in ("gaierror", "-"):   # "-": no OS answer configured for this host = the simulated resolver does not know the name
                     return {"kind": "error", "calls": calls}
                 ans = os_answer(os_, i)
-                g = [tup(x) for x in ans if isinstance(x, str)]
+                g = [tup(x) for x in ans if isinstance(x, str)] + \
+                    [("v6", str(ipaddress.ip_address(x[4][0])), *x[4][1:]) for x in ans if isinstance(x, tuple) and x[0] == socket.AF_INET6]
                 groups = [g] if g else []
         blocks.append(groups)
     if not any(blocks):
